@@ -145,6 +145,13 @@ class Check(BaseCheck):
         rec.sample({'row_index': rows[-1], 'label': str(rows[-1] + 1)})
 
     @staticmethod
+    def _small_label(rnd):
+        ci, ri, ca, ra = rnd.randrange(6), rnd.randrange(6), rnd.random() < 0.3, rnd.random() < 0.3
+        col = m.col_label(ci)
+        col = col.lower() if rnd.random() < 0.3 else col
+        return ('$' if ca else '') + col + ('$' if ra else '') + str(ri + 1), (ca, ci, ra, ri)
+
+    @staticmethod
     def _rand_label(rnd):
         k = rnd.random()
         if k < 0.3:
@@ -314,6 +321,31 @@ class Check(BaseCheck):
             if got != (ca, ci, ra, ri) or c.label != lab.upper():
                 rec.violation('C19/parser:cell-event-coordinates', label=lab, got=(c.label,) + got, expected=(ca, ci, ra, ri))
             rec.nt(('parser', lab))
+            # ... and a label means the same after it has been a CORNER OF A RANGE (in any of the four corner orders, which the parser
+            # normalises): decomposed again directly and through another cell event, its parts are still its own
+            if _ % 4 == 0:
+                lab2, m2 = self._rand_label(rnd)
+                if rnd.random() < 0.5:          # small coordinates: both labels are met again and again, in every order
+                    lab2, m2 = self._small_label(rnd)
+                    lab, (ca, ci, ra, ri) = self._small_label(rnd)
+                p.parse('%s:%s' % (lab, lab2))
+                p.parse('SUM(%s:%s)' % (lab2, lab))
+                for l, (xa, xi, ya, yi) in ((lab, (ca, ci, ra, ri)), (lab2, m2)):
+                    rec.case()
+                    try:
+                        parts = hc.extract_label(l)
+                    except Exception as e:
+                        parts = repr(e)
+                    ok = isinstance(parts, list) and len(parts) == 2 and (parts[0].index, bool(parts[0].is_absolute), parts[1].index, bool(parts[1].is_absolute)) == (yi, ya, xi, xa)
+                    if not ok:
+                        rec.violation('C19/extract_label:wrong-coordinates:after-the-label-was-a-range-corner', label=l, other_corner=lab2 if l is lab else lab, got=parts, expected=(yi, ya, xi, xa))
+                    del seen[:]
+                    p.parse(l)
+                    if len(seen) == 1:
+                        c = seen[0]
+                        if (bool(c.col.is_absolute), c.col.index, bool(c.row.is_absolute), c.row.index) != (xa, xi, ya, yi) or c.label != l.upper():
+                            rec.violation('C19/parser:cell-event-coordinates:after-the-label-was-a-range-corner', label=l, got=(c.label, c.col.index, c.row.index), expected=(xi, yi))
+                rec.count('labels_rechecked_after_being_range_corners', 2)
         rec.sample({'formula': lab, 'event': repr(seen[0]) if seen else None})
 
     def judge(self, merged, tier):
